@@ -28,10 +28,13 @@ def tokAux : List Char → List Char → List Tok → List Tok
   | [], cur, acc =>
       (if cur.isEmpty then acc else Tok.at (String.ofList cur.reverse) :: acc).reverse
   | c :: cs, cur, acc =>
-      let flush := if cur.isEmpty then acc else Tok.at (String.ofList cur.reverse) :: acc
-      if c == '(' then tokAux cs [] (Tok.lp :: flush)
-      else if c == ')' then tokAux cs [] (Tok.rp :: flush)
-      else if c == ' ' || c == '\t' || c == '\n' || c == '\r' then tokAux cs [] flush
+      -- (the pending atom is flushed only at a delimiter: doing it per character is quadratic)
+      if c == '(' then
+        tokAux cs [] (Tok.lp :: (if cur.isEmpty then acc else Tok.at (String.ofList cur.reverse) :: acc))
+      else if c == ')' then
+        tokAux cs [] (Tok.rp :: (if cur.isEmpty then acc else Tok.at (String.ofList cur.reverse) :: acc))
+      else if c == ' ' || c == '\t' || c == '\n' || c == '\r' then
+        tokAux cs [] (if cur.isEmpty then acc else Tok.at (String.ofList cur.reverse) :: acc)
       else tokAux cs (c :: cur) acc
 
 def tokenize (s : String) : List Tok := tokAux s.toList [] []
